@@ -43,12 +43,30 @@ class Result:
         return True
 
     def exception(self, key, exc, what=""):
+        if is_env_error(exc):
+            # the machine, not the library: never a verdict about the property (the worker retries the case, then reports a harness error)
+            raise EnvironmentTrouble(f"{type(exc).__name__}: {exc}")
         tb = traceback.format_exc()
         self.violation(key, f"{what}: {type(exc).__name__}: {exc}", traceback=tb[-1200:])
 
     def as_dict(self):
         return {"violations": self.violations, "observed": self.observed, "sig": self.sig,
                 "nontrivial": self.nontrivial, "nt": self.nt}
+
+
+class EnvironmentTrouble(Exception):
+    """resource exhaustion on the host while a case was running (threads, memory, file handles, disk)"""
+
+
+def is_env_error(exc):
+    import errno
+    if isinstance(exc, (MemoryError, EnvironmentTrouble)):
+        return True
+    if isinstance(exc, RuntimeError) and "can't start new thread" in str(exc):
+        return True
+    if isinstance(exc, OSError) and exc.errno in (errno.ENOMEM, errno.EMFILE, errno.ENFILE, errno.ENOSPC, errno.EAGAIN) and "injected" not in str(exc):
+        return True
+    return False
 
 
 def _js(x):
